@@ -30,9 +30,12 @@ VARIABLES blk, off
 Recs == ndJsonDeserialize(IOEnv.TRACE_FILE)
 BS == 16
 NB == (Len(Recs) + BS - 1) \div BS
+\* off = 0: no record yet.  (Initial states are evaluated by TLC's main thread, whose
+\* small stack was seen to overflow sporadically on Report; the worker threads, which get
+\* the enlarged stack, do all the judging.)
 Init == blk \in 0..(NB - 1) /\ off = 0
-Next == off < BS - 1 /\ off' = off + 1 /\ UNCHANGED blk
-Idx == blk * BS + off + 1
+Next == off < BS /\ off' = off + 1 /\ UNCHANGED blk
+Idx == blk * BS + off
 
 EvOf(rec, e) == IF e.ev \in {"ret", "raise"} THEN [ev |-> e.ev, val |-> e.val]
                 ELSE [ev |-> e.ev, n |-> rec.nodes[e.n + 1]]
@@ -85,7 +88,10 @@ TagReport(rec) ==
          \o Opt(run.bad # "", F(run.bad, evs[run.at].ev))
          \o Opt(obad # {}, F("RepeatedOpOnce", SharingPattern(ins, obad)))
          \o Opt(whole /\ ~AllInstInv(I), F("final-state-invariant", ""))
-         \o Opt(whole /\ rec.fcalls > Cardinality({p \in cls : p.R.t = "Call"}), F("call-count", ""))
+         \* the independent counter exceeds the bound: explained by the operation-level
+         \* finding when there is one, a class of its own otherwise
+         \o Opt(whole /\ rec.fcalls > Cardinality({p \in cls : p.R.t = "Call"}),
+                F("call-count", IF obad # {} THEN SharingPattern(ins, obad) ELSE "plain"))
          \o Opt(hv # "", F("hist-value", hv))
         drift == Opt(outs # TagImpl(ins), "tagger") \o Opt(rec.houts # HistTagImpl(ins), "histogram-tagger")
         obs   == Opt(HasWrapperOnWrapper(rec.houts) /\ ~HasWrapperOnWrapper(ins), "hist-wrapper-on-wrapper")
@@ -115,7 +121,7 @@ WrapReport(rec) ==
         obs |-> Opt(v = "UNSPEC", "unspecified-cell")]
 
 Report ==
-    Idx <= Len(Recs) =>
+    (off >= 1 /\ Idx <= Len(Recs)) =>
       LET rec == Recs[Idx]
           r   == IF rec.kind = "tag" THEN TagReport(rec) ELSE WrapReport(rec)
       IN (r.fails = << >> /\ r.skip = 0 /\ r.drift = << >> /\ r.obs = << >>)
